@@ -15,12 +15,17 @@ Keys == Clusters \X Subs \X Backs
 \* iff it has a sub-cluster (gslb.data and cluster_table.data are consistent)
 Confs == (SUBSET Keys) \ {{}}
 
+SubsOf(c0) == {<<k[1], k[2]>> : k \in c0}
+\* zero-weight sub-clusters: every cluster keeps at least one sub-cluster with positive weight
+ZeroSets(c0) == {z \in SUBSET SubsOf(c0) : \A k \in c0 : \E s \in SubsOf(c0) : s[1] = k[1] /\ ~(s \in z)}
+
 VARIABLES conf,      \* current configuration
+          zero,      \* sub-clusters configured with weight 0 (cross-retry targets only)
           live,      \* [conf -> id] live object per key
           ost,       \* [1..nid -> [key, avail, conn, rel]] every object ever created
           nid, nre, ntouch,
           sel        \* last selection [cluster, id] or none
-vars == <<conf, live, ost, nid, nre, ntouch, sel>>
+vars == <<conf, zero, live, ost, nid, nre, ntouch, sel>>
 
 NoSel == [c |-> "none", id |-> 0]
 
@@ -30,8 +35,8 @@ Assign(S, n, f) == IF S = {} THEN f
                    ELSE LET k == CHOOSE x \in S : TRUE
                         IN Assign(S \ {k}, n + 1, f @@ (k :> n + 1))
 
-Init == \E c0 \in Confs :
-          /\ conf = c0
+Init == \E c0 \in Confs : \E z0 \in ZeroSets(c0) :
+          /\ conf = c0 /\ zero = z0
           /\ live = Assign(c0, 0, <<>>)
           /\ nid = Cardinality(c0)
           /\ ost = [i \in 1..Cardinality(c0) |->
@@ -39,7 +44,8 @@ Init == \E c0 \in Confs :
                        avail |-> TRUE, conn |-> 0, rel |-> 0]]
           /\ nre = 0 /\ ntouch = 0 /\ sel = NoSel
 
-Reload(c1) ==
+Reload(c1, z1) ==
+    /\ z1 \in ZeroSets(c1) /\ zero' = z1
     /\ nre < MaxReloads /\ nid + Cardinality(c1 \ conf) <= MaxIds
     /\ LET gone == conf \ c1
            new == c1 \ conf
@@ -59,12 +65,17 @@ Reload(c1) ==
 Touch(k) == /\ ntouch < MaxTouch /\ k \in conf
             /\ \E a \in BOOLEAN, d \in {0, 1} :
                  ost' = [ost EXCEPT ![live[k]].avail = a, ![live[k]].conn = @ + d]
-            /\ ntouch' = ntouch + 1 /\ sel' = NoSel /\ UNCHANGED <<conf, live, nid, nre>>
+            /\ ntouch' = ntouch + 1 /\ sel' = NoSel /\ UNCHANGED <<conf, zero, live, nid, nre>>
 
-Select(c) == /\ \E k \in conf : k[1] = c /\ ost[live[k]].avail /\ sel' = [c |-> c, id |-> live[k]]
-             /\ UNCHANGED <<conf, live, ost, nid, nre, ntouch>>
+\* first choice: a positive-weight sub-cluster; a zero-weight one only as cross-retry target when
+\* some positive-weight sub-cluster of the cluster has no available backend
+PosDown(c) == \E s \in SubsOf(conf) : s[1] = c /\ ~(s \in zero)
+                 /\ \A k \in conf : (k[1] = c /\ k[2] = s[2]) => ~ost[live[k]].avail
+SelOK(c, k) == k[1] = c /\ ost[live[k]].avail /\ (~(<<k[1], k[2]>> \in zero) \/ PosDown(c))
+Select(c) == /\ \E k \in conf : SelOK(c, k) /\ sel' = [c |-> c, id |-> live[k]]
+             /\ UNCHANGED <<conf, zero, live, ost, nid, nre, ntouch>>
 
-Next == \/ \E c1 \in Confs : Reload(c1)
+Next == \/ \E c1 \in Confs : \E z1 \in ZeroSets(c1) : Reload(c1, z1)
         \/ \E k \in Keys : Touch(k)
         \/ \E c \in Clusters : Select(c)
 Spec == Init /\ [][Next]_vars
@@ -76,4 +87,5 @@ LiveNotReleased == \A i \in LiveIds : ost[i].rel = 0
 DeadReleased == \A i \in (1..nid) \ LiveIds : ost[i].rel = 1
 OnePerKey == \A k1, k2 \in conf : live[k1] = live[k2] => k1 = k2
 SelectLive == sel.id # 0 => sel.id \in LiveIds /\ ost[sel.id].key[1] = sel.c /\ ost[sel.id].avail
+SelectPositive == sel.id # 0 => (~(<<ost[sel.id].key[1], ost[sel.id].key[2]>> \in zero) \/ PosDown(sel.c))
 =======================================================================
